@@ -237,10 +237,10 @@ def run_job(job):
 
 def jobs(tier, seed):
     if tier == "quick":
-        for i in range(0, 5000, 50):
-            yield {"seed": seed, "index": i, "count": 50, "faulty": False}
-        for i in range(0, 2500, 50):
-            yield {"seed": seed, "index": i, "count": 50, "faulty": True}
+        for i in range(0, 9000, 75):
+            yield {"seed": seed, "index": i, "count": 75, "faulty": False}
+        for i in range(0, 4500, 75):
+            yield {"seed": seed, "index": i, "count": 75, "faulty": True}
     else:
         i = j = 0
         while True:
